@@ -7,6 +7,14 @@ from visions.types.path import Path
 from visions.types.type import VisionsBaseType
 
 
+def path_exists(path: Any) -> bool:
+    """Whether the path exists; a path the OS refuses to look up (e.g. name too long) does not exist."""
+    try:
+        return path.exists()
+    except OSError:
+        return False
+
+
 class File(VisionsBaseType):
     """**File** implementation of :class:`visions.types.type.VisionsBaseType`.
     (i.e. existing path)
